@@ -16,6 +16,7 @@ Inductive err :=
 | TypeMismatchError (expected actual : kind)                            (* GuppyTypeError *)
 | AssertionError                                                        (* internal *)
 | ValueError                                                            (* hugr's _to_unsigned *)
+| SerialisationsDiffer                                                  (* to_value vs to_model *)
 | NotALiteral.                                                          (* outside the model *)
 
 Inductive res (A : Type) : Type := Ok (a : A) | Raise (e : err).
